@@ -49,6 +49,7 @@ From CSS Require Iso.Deciders Iso.DecidersObjects Count.ObjectsRun Count.ParseTr
 From CSS Require Import Base.PyList Gen.PermInv Iso.Model Iso.Cert Iso.Valid Iso.PermProofs
      Iso.Transport Iso.Search Iso.CertProofs Iso.Refl Iso.ReflTotal Iso.Complete Iso.EquivSym Iso.Symmetric
      Iso.SearchSyn Iso.SymmetricFull Iso.Refuted Iso.Termination Iso.NoRaise Iso.Verdict.
+From CSS Require Import Iso.ReflOn Iso.DecidersRefl Iso.ReflNonEmpty.
 Import ListNotations.
 Open Scope Z_scope.
 
@@ -282,6 +283,59 @@ Theorem C12_reflexive_never_false : forall exact s,
   (forall c r, find_rule s c = Some r -> r_children r <> [] -> ne_children s r <> []) ->
   forall fuel st', are_isomorphic exact s s fuel <> Ok (false, st').
 Proof. exact refl_never_false. Qed.
+
+(* (4d) Reflexivity UP TO EMPTY CLASSES.  _are_isomorphic only descends into the non-empty children of a rule
+        (non_empty_ind1/2) and an equivalence step leads to the single non-empty child, so from a non-empty root the
+        search on (s, s) never reads the rule of an empty class: every hypothesis of C12_check_reflexive is only
+        needed for the NON-EMPTY classes.  Searched specifications hold an EmptyStrategy rule (childless, not an atom)
+        for their empty classes: C12_check_reflexive's "every childless class is an atom" is false on them, the
+        hypotheses below hold (decided per specification by refl_hypsb in the extracted run, C12_check_reflexive_decided).
+        Extra hypothesis with respect to C12_check_reflexive: the root is not empty. *)
+Theorem C12_check_reflexive_nonempty : forall exact s,
+  eq_wf s ->
+  is_empty s (s_root s) = false ->
+  (forall c r, find_rule s c = Some r -> is_empty s c = false -> r_children r = [] -> r_atom r = true) ->
+  (forall c r, find_rule s c = Some r -> is_empty s c = false -> r_children r <> [] ->
+     ne_children s r <> [] /\ r_isrule r = true) ->
+  (forall c r d, find_rule s c = Some r -> is_empty s c = false -> In d (ne_children s r) ->
+     exists r', find_rule s d = Some r') ->
+  (exists r0, find_rule s (s_root s) = Some r0) ->
+  verdict exact s s = Ok true.
+Proof. exact verdict_reflexive_nonempty. Qed.
+
+(* the same with the explicit fuel bound of C12_reflexive_atoms *)
+Theorem C12_reflexive_nonempty : forall exact s,
+  eq_wf s ->
+  is_empty s (s_root s) = false ->
+  (forall c r, find_rule s c = Some r -> is_empty s c = false -> r_children r = [] -> r_atom r = true) ->
+  (forall c r, find_rule s c = Some r -> is_empty s c = false -> r_children r <> [] ->
+     ne_children s r <> [] /\ r_isrule r = true) ->
+  (forall c r d, find_rule s c = Some r -> is_empty s c = false -> In d (ne_children s r) ->
+     exists r', find_rule s d = Some r') ->
+  forall r0, find_rule s (s_root s) = Some r0 ->
+  forall fuel, (length (keys s) + arity_bound s + 1 <= fuel)%nat ->
+  exists st', are_isomorphic exact s s fuel = Ok (true, st').
+Proof. exact refl_total_nonempty. Qed.
+
+(* the general form both are instances of: P = any set of classes that holds the root and is closed under
+   "non-empty child of"; the hypotheses are asked for the classes of P only.  P = all classes gives
+   C12_reflexive_atoms back (Iso/ReflOn.v refl_total_all), P = the non-empty classes the theorem above;
+   P = the classes reachable from the root through non-empty children is the weakest instance. *)
+Theorem C12_reflexive_visited : forall exact s, eq_wf s -> forall P : Z -> Prop,
+  (forall c r d, P c -> find_rule s c = Some r -> In d (ne_children s r) -> P d) ->
+  (forall c r, P c -> find_rule s c = Some r -> r_children r = [] -> r_atom r = true) ->
+  (forall c r, P c -> find_rule s c = Some r -> r_children r <> [] -> ne_children s r <> []) ->
+  (forall c r, P c -> find_rule s c = Some r -> r_children r <> [] -> r_isrule r = true) ->
+  (forall c r d, P c -> find_rule s c = Some r -> In d (ne_children s r) -> exists r', find_rule s d = Some r') ->
+  P (s_root s) -> forall r0, find_rule s (s_root s) = Some r0 ->
+  forall fuel, (length (keys s) + arity_bound s + 1 <= fuel)%nat ->
+  exists st', are_isomorphic exact s s fuel = Ok (true, st').
+Proof. exact refl_total_on. Qed.
+
+(* the hypotheses of C12_check_reflexive_nonempty are decidable on a descriptor; refl_hypsb (Iso/DecidersRefl.v) is
+   evaluated by the extracted run on both specifications of every case *)
+Theorem C12_check_reflexive_decided : forall exact s, refl_hypsb s = true -> verdict exact s s = Ok true.
+Proof. exact refl_hypsb_sound. Qed.
 
 (* Constructor.equiv (type and extra parameters up to renaming) is reflexive *)
 Theorem C12_ctor_equiv_refl : forall c, ctor_equiv c c = true.
@@ -574,6 +628,19 @@ Proof. eexists. vm_compute. reflexivity. Qed.
 Example C12_example_reflexive : exists st, are_isomorphic false exB exB 20 = Ok (true, st).
 Proof. eexists. vm_compute. reflexivity. Qed.
 
+(* a specification as a search returns it: the empty class 9 has a rule of its own (EmptyStrategy: childless, not an
+   atom).  The hypothesis "every childless class is an atom" of C12_check_reflexive is FALSE of it, the hypotheses
+   of C12_check_reflexive_nonempty hold (decided), and check(s, s) is True *)
+Definition emptyR : rule := mkRule false [] false (mkCtor 0 []) false [].
+Definition exE : spec := mkSpec 5 [(5, eqR 0); (0, unionR [9; 2; 1]); (1, atomR 0); (2, prodR [0; 3]); (3, atomR 1); (9, emptyR)] [9].
+Example C12_example_reflexive_nonempty :
+  refl_hypsb exE = true /\ verdict true exE exE = Ok true /\
+  (exists c r, find_rule exE c = Some r /\ r_children r = [] /\ r_atom r = false).
+Proof.
+  split; [vm_compute; reflexivity|]. split; [apply C12_check_reflexive_decided; vm_compute; reflexivity|].
+  exists 9, emptyR. split; [reflexivity|]. split; reflexivity.
+Qed.
+
 Example C12_example_closed : closed_spec exA /\ closed_spec exB.
 Proof.
   split; (split; [|split; [|split; [|eexists; reflexivity]]]).
@@ -740,6 +807,10 @@ Print Assumptions C12_check_reflexive.
 Print Assumptions C12_check_true_bijection.
 Print Assumptions C12_reflexive_atoms.
 Print Assumptions C12_reflexive_never_false.
+Print Assumptions C12_check_reflexive_nonempty.
+Print Assumptions C12_reflexive_nonempty.
+Print Assumptions C12_reflexive_visited.
+Print Assumptions C12_check_reflexive_decided.
 Print Assumptions C12_ctor_equiv_refl.
 Print Assumptions C12_parse_trees_coincide.
 Print Assumptions C12_transport_inverse_objects.
